@@ -291,4 +291,27 @@ example : (FSys.run handTable FSys.init
      .readRet .eof, .main, .main, .main, .main, .main, .main, .main, .main, .main, .main, .main,
      .cb 0, .cb 0, .cb 0]).map (fun x => (x.2, x.1.chanClosed, x.1.mpc)) = some ([.eof], true, .done) := by decide
 
+/-- **F29 at the grain of single statements**: with the callback as it was before the repair
+    (`emit(C0 0x1B)` outside the mutex and without a generation check, then `Lock; state = ground;
+    ignoreST = false; Unlock`) the statement-grained system (a) reports Escape after `ESC [ A` has been
+    delivered as a CSI, (b) tears the sequence when the callback runs between `[` and `A` (`C0 1B`, then
+    `A` printed from ground), (c) sends on the closed channel when it runs after `run` has finished;
+    the repaired callback, on the same schedules with its own statements, does none of this
+    (`fine_escape_report_is_lone_esc`, `fine_no_send_on_closed`, `fine_no_panic`). -/
+theorem fine_pre_F29_callback_fails :
+    ((FSys.runOld handTable FSys.init
+        [.main, .readRet (.rune 0x1B), .main, .main, .main, .main, .main, .main, .expire,
+         .readRet (.rune 0x5B), .main, .main, .main, .main, .main,
+         .main, .readRet (.rune 0x41), .main, .main, .main, .main, .main,
+         .cb 0, .cb 0, .cb 0, .cb 0, .cb 0]).map (·.2) = some [.csi [] [] 0x41, .c0 0x1B]) ∧
+    ((FSys.runOld handTable FSys.init
+        [.main, .readRet (.rune 0x1B), .main, .main, .main, .main, .main, .main, .expire,
+         .readRet (.rune 0x5B), .main, .main, .main, .main, .main, .cb 0, .cb 0, .cb 0, .cb 0, .cb 0,
+         .main, .readRet (.rune 0x41), .main, .main, .main, .main, .main]).map (·.2) = some [.c0 0x1B, .print 0x41]) ∧
+    ((FSys.runOld handTable FSys.init
+        [.main, .readRet (.rune 0x1B), .main, .main, .main, .main, .main, .main, .expire,
+         .readRet .eof, .main, .main, .main, .main, .main, .main, .main, .main, .main, .main, .main,
+         .cb 0]).map (·.2) = some [.eof, .panic]) := by
+  refine ⟨?_, ?_, ?_⟩ <;> decide +kernel
+
 end VaxisModel.Props.C08Fine
